@@ -59,6 +59,8 @@ func Main(args []string) int {
 		return cmdReplay(args[1:])
 	case "names":
 		return cmdNames(args[1:])
+	case "solesites":
+		return cmdSoleSites()
 	case "mapranges":
 		return cmdMapRanges()
 	case "writers":
@@ -71,6 +73,8 @@ func Main(args []string) int {
 }
 
 type World struct {
+	callersOf map[*ssa.Function][]string
+	probe     *VC
 	P *Program
 	C *Contracts
 	expanded bool
